@@ -26,7 +26,7 @@ type StoreSpec struct {
 	Name      string `json:"name"`
 	Slot      int    `json:"slot"`
 	Unique    bool   `json:"unique"`
-	ValueMode int    `json:"vmode"` // 0 in-node, 1 separate segment, 2 actively persisted, 3 globally cached
+	ValueMode int    `json:"vmode"` // 0 in-node, 1 separate segment, 2 actively persisted, 3 globally cached, 4 actively persisted + globally cached
 	Balance   bool   `json:"balance,omitempty"`
 	CacheMode int    `json:"cmode,omitempty"` // 0 defaults, 1 minimum durations, 2 long + TTL
 	Desc      string `json:"desc,omitempty"`
@@ -266,6 +266,9 @@ func storeOptions(sp StoreSpec) sop.StoreOptions {
 	case 2:
 		so.IsValueDataActivelyPersisted = true
 	case 3:
+		so.IsValueDataGloballyCached = true
+	case 4:
+		so.IsValueDataActivelyPersisted = true
 		so.IsValueDataGloballyCached = true
 	}
 	switch sp.CacheMode {
